@@ -144,3 +144,15 @@ CLAIMED.update({
             "Trusted: Coq kernel; std mpsc / Drop / thread::panicking semantics as modelled; OS scheduling fairness; cfg-gated fault points; unshare -m namespace.",
             "DESIGN.md section 6, C15"),
 })
+
+CLAIMED.update({
+    "C01": ("Coq proof over the reals (world model: ideal clocks, floor reads, drift cone, chrony validity) composing the component theorems C07_bound, C05_width, the status decay and the "
+            "updater's history theorem (nra/lra for the error budget of 4 ns) + end-to-end runs of the whole real pipeline under a virtual clock with the containment predicate evaluated "
+            "against the simulated true time",
+            "Machine-checked: C01_containment (for every message history of any daemon incarnation, every report in the meaningful range, every world satisfying the drift and validity "
+            "hypotheses with t_a <= t_r <= t_c <= t_m, every client reading: a result with status Synchronized or FreeRunning contains the true instant of the realtime read up to 4 ns), "
+            "C01_no_measurement_no_trust. The reader's snapshot being a fully published record is C02/C03 (see their partial status).",
+            "Trusted: Coq kernel + the four standard-library axioms of Reals/Flocq; the world model (real-valued clocks, floor reads; CLOCK_MONOTONIC_COARSE granularity and chronyd's "
+            "honesty are hypotheses); Flocq binary64 = rustc f64; the end-to-end harness (fake chronyd, virtual clock shared by the daemon threads, world generator).",
+            "DESIGN.md section 6, C01"),
+})
